@@ -35,7 +35,7 @@ DECIDES = {
     "C01": ["KeyAgree", "KeyEstablished"],
     "C02": ["InOrderOnce", "VersionsHonest", "Backed", "OnceEach"],
     "C03": ["InOrderOnce"],
-    "C08": ["ClosedOnce", "NothingAfter", "Verdict", "VerdictKnown", "Freed", "CloseCompletes"],
+    "C08": ["ClosedOnce", "NothingAfter", "Verdict", "VerdictKnown", "Freed", "CloseCompletes", "LateGets"],
     "C09": ["AllDelivered", "KeyEstablished", "OnceEach", "InOrderOnce", "CloseCompletes"],
     "C14": ["NoInternal", "DocVerdict"],
     "C18": ["OnceEach", "Causal", "VersionsFirst", "LateGets", "InOrderOnce"],
@@ -1647,6 +1647,23 @@ def run_pipeline(prop, tier, v, quick):
                         runs[tid] = run_
                         records.append(run_.finish(drained, goal=False))
             cov["c18_family_cases"] = n
+        if prop == "C08":
+            # "nothing is delivered to the application after it": a Deferred-mode application that has not read everything when
+            # the wormhole closes asks afterwards (the lazy family of C18, judged here by the same LateGets)
+            n = 0
+            for how in ("happy", "wrong", "pending"):
+                for k_ in range(0, 4):
+                    for j_ in sorted({0, k_ // 2, k_}):
+                        tid += 1
+                        n += 1
+                        try:
+                            run_, goal, drained = c18_case(tid, k_, j_ if how != "wrong" else 0, how)
+                        except Exception as e:
+                            cov.setdefault("family_errors", []).append(repr(e)[:120])
+                            continue
+                        runs[tid] = run_
+                        records.append(run_.finish(drained, goal=False))
+            cov["c08_unread_at_close_cases"] = n
         # ---- 3. code -> spec: random schedules on the real system
         nrand = 120 if quick else 1200
         nlazy = 0
